@@ -896,3 +896,24 @@ benign(
     (PBW, "        fusable_with_predecessors=True,\n        fusable_with_successors=primitive_op.fusable_with_successors,\n", "        fusable_with_predecessors=True,\n        fusable_with_successors=keep_unfused,\n"),
     (PBW, "    fused_pipeline = CubedPipeline(\n        apply_blockwise,\n        gensym(\"fused_apply_blockwise\"),", "    keep_unfused = primitive_op.fusable_with_successors\n    fused_pipeline = CubedPipeline(\n        apply_blockwise,\n        gensym(\"fused_apply_blockwise\"),"),
 )
+# ---- clauses that came out of the generic mutation sweep (tools/mutation_sweep.py): one
+# ---- mutant per clause, and behaviour-preserving twins of the same sites
+MANIP2 = "cubed/core/ops.py"
+mutant("M139-batch-refill-test-inverted", ["C08", "C13"], "MAP-SUBMIT-1", (ASYNC, "            if inputs is not None:\n                new_tasks = {", "            if inputs is None:\n                new_tasks = {"))
+mutant("M140-batch-refill-resubmits-first-batch", ["C08", "C13"], "MAP-SUBMIT-1", (ASYNC, "            inputs = next(input_batches, None)  # type: ignore\n", ""))
+mutant("M141-new-futures-never-awaited", ["C08", "C13"], "MAP-SUBMIT-1", (ASYNC, "                tasks.update(new_tasks)\n                pending.update(new_tasks.keys())\n", "                tasks.update(new_tasks)\n"))
+benign("B-batch-refill-truthiness", ["C08", "C13", "C07"], (ASYNC, "            if inputs is not None:\n                new_tasks = {", "            if inputs:\n                new_tasks = {"))
+mutant("M142-failure-set-aside-when-twin-failed-too", ["C08"], "MAP-RAISE-1", (ASYNC, "                    if not backup.done() or not backup.exception():\n                        continue", "                    if backup.done() and backup.exception():\n                        continue"))
+mutant("M143-failure-always-raised", ["C08"], "MAP-RAISE-1", (ASYNC, "                    if not backup.done() or not backup.exception():\n                        continue\n", "                    if not backup.done() or not backup.exception():\n                        pass\n"))
+benign("B-suppress-condition-de-morgan", ["C08"], (ASYNC, "                    if not backup.done() or not backup.exception():\n                        continue", "                    if not (backup.done() and backup.exception()):\n                        continue"))
+mutant("M144-twin-cleanup-under-negated-option", ["C08", "C13"], "MAP-ONCE-1", (ASYNC, "            # remove any backup task\n            if use_backups:", "            # remove any backup task\n            if not use_backups:"))
+mutant("M145-task-end-dispatch-when-no-callbacks", ["C13"], "EVENTS-1", (LOCAL, "                if callbacks is not None:\n                    event = TaskEndEvent(name=name, result=result)", "                if callbacks is None:\n                    event = TaskEndEvent(name=name, result=result)"))
+benign("B-task-end-dispatch-truthiness", ["C13"], (LOCAL, "                if callbacks is not None:\n                    event = TaskEndEvent(name=name, result=result)", "                if callbacks:\n                    event = TaskEndEvent(name=name, result=result)"))
+mutant("M146-only-empty-generations-yielded", ["C07"], "BARRIER-SRC-1", (PIPE, "        if len(gen) > 0:", "        if len(gen) == 0:"))
+benign("B-generation-nonempty-ge-1", ["C07"], (PIPE, "        if len(gen) > 0:", "        if len(gen) >= 1:"))
+benign("B-generation-nonempty-truthiness", ["C07"], (PIPE, "        if len(gen) > 0:", "        if gen:"))
+mutant("M147-multi-output-array-without-producer-edge", ["C07"], "PLAN-EDGES-1", (PLAN, "                        hidden=hidden,\n                    )\n                    dag.add_edge(op_name_unique, n)\n            else:  # single output\n                dag.add_node(\n                    name,\n                    name=name,\n                    type=\"array\",\n                    target=target,\n                    hidden=hidden,\n                )", "                        hidden=hidden,\n                    )\n            else:  # single output\n                dag.add_node(\n                    name,\n                    name=name,\n                    type=\"array\",\n                    target=target,\n                    hidden=hidden,\n                )"))
+mutant("M148-unify-rechunks-only-equal-chunks", ["C01", "C17"], "ALIGN-1", (MANIP2, "            if chunks != a.chunks and all(a.chunks):", "            if chunks == a.chunks and all(a.chunks):"))
+benign("B-unify-branches-swapped", ["C01", "C17"], (MANIP2, "            if chunks != a.chunks and all(a.chunks):\n                # this will raise if chunks are not regular\n                # but this should never happen with smallest_blockdim\n                chunksize = to_chunksize(chunks)  # type: ignore\n                arrays.append(rechunk(a, chunksize))\n            else:\n                arrays.append(a)", "            if chunks == a.chunks or not all(a.chunks):\n                arrays.append(a)\n            else:\n                chunksize = to_chunksize(chunks)  # type: ignore\n                arrays.append(rechunk(a, chunksize))"))
+mutant("M149-store-source-type-guard-inverted", ["C11"], "STORE-GUARD-1", (MANIP2, "    if any(not isinstance(s, CoreArray) for s in sources):", "    if not any(not isinstance(s, CoreArray) for s in sources):"))
+mutant("M150-store-length-guard-inverted", ["C11"], "STORE-GUARD-1", (MANIP2, "    if len(sources) != len(targets):\n        raise ValueError(", "    if len(sources) == len(targets):\n        raise ValueError("))
